@@ -8,21 +8,80 @@ from vlib import ToolError
 
 
 def mc_legs(c, quick):
-    mc = vlib.tlc_mc("StateMachine.tla", "MC_StateMachine.cfg" if quick else "MC_StateMachine_thorough.cfg",
-                     name=c.pid + "_mc", timeout=3000)
-    vlib.require_actions(mc, ["Apply", "ApplyBatch", "Compact", "InterruptSnap", "Restart"])
-    c.add_mc(mc)
+    # all components except MCP (configs with type / description, namespaces, users, sequences, persistent
+    # instances, cache); MCP (tool specs + servers) in a model of its own so that the logs can be longer
+    for cfg in (("MC_StateMachine.cfg", "MC_StateMachine_mcp.cfg") if quick else
+                ("MC_StateMachine_thorough.cfg", "MC_StateMachine_mcp_thorough.cfg")):
+        mc = vlib.tlc_mc("StateMachine.tla", cfg, name=c.pid + "_mc", timeout=3000)
+        vlib.require_actions(mc, ["Apply", "ApplyBatch", "Compact", "InterruptSnap", "Restart"])
+        c.add_mc(mc)
     for cfg, what in (("MC_StateMachine_defect_tail.cfg", "stale tail of an interrupted snapshot attempt is loaded"),
                       ("MC_StateMachine_defect_capture.cfg", "snapshot header index captured before the component states")):
         n = vlib.tlc_mc("StateMachine.tla", cfg, expect_violation="SnapshotsExact", name=c.pid + "_neg")
         c.add_negative_control("StateMachine with %s violates SnapshotsExact" % what, n["violated"])
+    for cfg, what in (("MC_StateMachine_defect_mcp_sticky.cfg", "MCP tool references kept incrementally and never taken out"),
+                      ("MC_StateMachine_defect_mcp_rclost.cfg", "MCP version reference counts missing from the snapshot")):
+        n = vlib.tlc_mc("StateMachine.tla", cfg, expect_violation="LiveIsFold", name=c.pid + "_neg")
+        c.add_negative_control("StateMachine with %s violates LiveIsFold" % what, n["violated"])
 
 
 def gen(c, num, seed, name):
-    beh = vlib.tlc_sim("SimStateMachine.tla", "SIM_StateMachine.cfg", num=num, depth=60, seed=seed, name=name)
+    """kind-first simulation of the whole model plus two focused alphabets (MCP only; persistent instances + cache)"""
+    beh = []
+    for i, (cfg, share) in enumerate((("SIM_StateMachine.cfg", 0.5), ("SIM_StateMachine_mcp.cfg", 0.25),
+                                      ("SIM_StateMachine_namcch.cfg", 0.25))):
+        part = vlib.tlc_sim("SimStateMachine.tla", cfg, num=max(8, int(num * share)), depth=60, seed=seed + i,
+                            name="%s_%d" % (name, i))
+        for b in part:
+            b["alphabet"] = cfg[len("SIM_StateMachine"):-4].strip("_") or "all"
+        beh += part
     if len(beh) < num // 4:
         raise ToolError("too few StateMachine behaviours: %d" % len(beh))
     return beh
+
+
+def _sig(b):
+    out = []
+    for s in b["steps"]:
+        if s["op"] == "apply":
+            out.append(s["req"]["t"] + ("+" if s["req"].get("tools") else ""))
+        elif s["op"] == "apply_batch":
+            out.append("[" + ",".join(r["t"] + ("+" if r.get("tools") else "") for r in s["reqs"]) + "]")
+        else:
+            out.append(s["op"])
+    return " ".join(out)
+
+
+def gen_mcp_thin(c, limit, seed):
+    """thin cases of the MCP component, exported from the COMPLETE state graph of the small MCP model: a tool that a
+    server referred to is changed / removed later, with a compaction somewhere.  Restart is the identity in the model
+    (so TLC never reaches a new state through it); restarts are inserted here: one right after every compaction and
+    one at the end.  One behaviour per distinct shape (sequence of operation / request kinds), seeded choice."""
+    import random
+    g = vlib.tlc_mc("StateMachine.tla", "GEN_StateMachine_mcp.cfg", name=c.pid + "_genmcp", collect_replay=True, timeout=1200)
+    allb = g.get("replay", [])
+    if not allb:
+        raise ToolError("no thin MCP behaviour exported")
+    by = {}
+    for b in allb:
+        by.setdefault(_sig(b), []).append(b)
+    rnd = random.Random(seed)
+    sigs = sorted(by)
+    rnd.shuffle(sigs)
+    chosen = []
+    for sg in sigs[:limit]:
+        b = rnd.choice(by[sg])
+        steps = []
+        for s in b["steps"]:
+            steps.append(s)
+            if s["op"] == "compact":
+                steps.append({"op": "restart", "sm": s["sm"]})
+        steps.append({"op": "restart", "sm": steps[-1]["sm"]})
+        chosen.append({"steps": steps, "alphabet": "mcp_thin"})
+    c.cov["mcp_thin_exported"] = len(allb)
+    c.cov["mcp_thin_shapes"] = len(sigs)
+    c.cov["mcp_thin_replayed"] = len(chosen)
+    return chosen
 
 
 def tv_traces(c, sc, n, ops, c07=False):
